@@ -130,5 +130,5 @@ PROPS = {
     "C12": {"mc": MC_INC, "suites": [INC_SCHED, INC_RANDOM]},
     "C13": {"mc": MC_INC, "suites": [INC_SCHED, INC_RANDOM, MATH_WEIGHT]},
     "C14": {"mc": [MC_POOL, MC_VAULT, MC_ROUTER], "suites": [POOL_SUITE, VAULT_SUITE, ROUTE_SUITE, TRIO_SUITE, POOL_STABLE]},
-    "C15": {"mc": [MC_POOL, MC_ROUTER], "suites": [POOL_SUITE, MATH_SPREAD, ROUTE_SUITE]},
+    "C15": {"mc": [MC_POOL, MC_ROUTER], "suites": [POOL_SUITE, MATH_SPREAD, ROUTE_SUITE, POOL_STABLE, TRIO_SUITE]},
 }
